@@ -67,6 +67,9 @@ RECIPES.update({
     'mc_point_ctor1': dict(name='mc_point', cls='mc_point', self='mc_point', ctor=True, sel='std::vector', opts=dict(default_args=1)),
     'mc_point_ctor2': dict(name='mc_point', cls='mc_point', self='mc_point', ctor=True, sel='std::vector'),
     'plain_result_ctor6': dict(name='plain_result', cls='plain_result', self='plain_result', ctor=True, sel='std::size_t, std::size_t, std::size_t'),
+    'vegas_point_ctor3': dict(unit='drivers', name='vegas_point', cls='vegas_point', self='vegas_point', ctor=True, sel='vegas_pdf'),
+    'vegas_point_bin': dict(unit='drivers', name='bin', cls='vegas_point', self='vegas_point'),
+    'vegas_result_ctor3': dict(unit='drivers', name='vegas_result', cls='vegas_result', self='vegas_result', ctor=True, sel='plain_result'),
     'plain_iteration': dict(unit='drivers', name='plain_iteration', opts=_IT_OPTS),
     'vegas_iteration': dict(unit='drivers', name='vegas_iteration', opts=_IT_OPTS),
     'multi_channel_iteration': dict(unit='drivers', name='multi_channel_iteration', opts=_IT_OPTS),
@@ -84,7 +87,7 @@ for _d in ('mpi_plain', 'mpi_vegas', 'mpi_multi_channel'):
 
 # ---- B1 jobs ------------------------------------------------------------------------------------
 _GHOSTS = ('size_t vp_invocations, vp_weight_calls, vp_acc_calls; T vp_last_f, vp_last_w, vp_last_acc; '
-           'T vp_w_s0, vp_w_s1, vp_w_s2; size_t vp_w_nz, vp_w_fc; size_t vp_draws; T vp_last_u; size_t vp_g_nz, vp_g_fc, vp_g_exp;')
+           'T vp_w_s0, vp_w_s1, vp_w_s2; size_t vp_w_nz, vp_w_fc; size_t vp_draws; T vp_last_u; size_t vp_g_nz, vp_g_fc, vp_g_exp; T vp_g_weight, vp_g_slot, vp_last_ret;')
 _ST_RES = [dict(cls='mc_point'), dict(cls='distribution_parameters', vec=True), dict(cls='mc_result', vec=True), dict(cls='distribution_result', vec=True),
            dict(cls='plain_result'), dict(cls='accumulator', cls_targs=['double', '0'], cname='accumulator_nodist'),
            dict(cname='vpinst_Fn', opaque=True), dict(unit='drivers', cls='integrand', cname='integrand')]
@@ -125,6 +128,15 @@ JOBS = [
          enforce='vegas_icdf', af=['vegas_icdf'], structs=[dict(cls='vegas_pdf', cls_targs=['double'])], globals='T vp_g_weight;',
          defines=['VP_BINSMAX=1048576', 'VP_DIMSMAX=1024'], props=['C07', 'C17', 'C01'], thorough_reals=['float'],
          assumptions=['libm: nexttoward(1, 0) lies in (1/2, 1)', 'every canonical number handed to vegas_icdf lies in [0,1] (std::generate_canonical contract)']),
+    dict(name='vegas_iteration', functions=['vegas_iteration', 'vegas_point_ctor3', 'vegas_point_bin', 'vegas_result_ctor3', 'mc_point_ctor2', 'vegas_icdf',
+                                             'vegas_pdf_bin_left', 'vegas_pdf_bins', 'vegas_pdf_dimensions'] + _F_IT,
+         specs=['vegas_iteration', 'vegas_icdf_abs', 'accumulator_nodist_invoke', 'accumulator_nodist_result', 'accumulate'],
+         entry='h_vegas_iteration', enforce='vegas_iteration', replace=['accumulator_nodist_invoke', 'accumulator_nodist_result', 'vegas_icdf'],
+         af=['accumulator_nodist_invoke', 'vegas_icdf', 'vegas_iteration'], split='always', split_workers=8,
+         structs=_ST_RES + [dict(cls='vegas_pdf', cls_targs=['double']), dict(unit='drivers', cls='vegas_point'), dict(unit='drivers', cls='vegas_result')],
+         preludes=['opaque.h'], late_preludes=['stubs.h'], globals=_GHOSTS,
+         defines=['VP_DIMSMAX=1024', 'VP_BINSMAX=1048576', 'VP_CALLSMAX=1099511627776'], props=['C02', 'C10', 'C17', 'C06', 'C19'],
+         trusted=[_T_USER, 'std::generate_canonical: assumed contract (value in [0,1], fixed raw draws per number)']),
     dict(name='refine_weights', functions=['multi_channel_refine_weights'], entry='h_multi_channel_refine_weights',
          enforce='multi_channel_refine_weights', replace=['vp_pow'], real='double', defines=['VP_NMAX=4096'],
          props=[]),
